@@ -97,6 +97,51 @@ static inline void split_fix(const std::string& buf, std::vector<std::string>& m
 }
 
 // ---------------------------------------------------------------------------------------------
+/// Saves the file positions of every descriptor this process holds on files under `dir` and restores them
+/// on destruction.  The snapshot reads the stored records back through the session's OWN FilePersister
+/// (Persister::get(seq) lseeks its data descriptor); without this guard the read-back would leave that
+/// descriptor somewhere else than fix8 left it and so repair -- or break -- the persister's state behind
+/// fix8's back (a put() that relied on the current position would go unnoticed).
+class FdPosGuard
+{
+	std::vector<std::pair<int, off_t>> _saved;
+public:
+	explicit FdPosGuard(const std::string& dir)
+	{
+		if (dir.empty())
+			return;
+		if (DIR *dp = opendir("/proc/self/fd"))
+		{
+			const int self(dirfd(dp));
+			while (dirent *de = readdir(dp))
+			{
+				if (de->d_name[0] < '0' || de->d_name[0] > '9') continue;
+				const int fd(atoi(de->d_name));
+				if (fd == self) continue;
+				char buf[4096];
+				const std::string lnk(std::string("/proc/self/fd/") + de->d_name);
+				const ssize_t n(readlink(lnk.c_str(), buf, sizeof(buf) - 1));
+				if (n <= 0) continue;
+				buf[n] = 0;
+				if (strncmp(buf, dir.c_str(), dir.size()) == 0 && buf[dir.size()] == '/')
+				{
+					const off_t pos(lseek(fd, 0, SEEK_CUR));
+					if (pos >= 0)
+						_saved.push_back(std::make_pair(fd, pos));
+				}
+			}
+			closedir(dp);
+		}
+	}
+	~FdPosGuard()
+	{
+		for (const auto& fp : _saved)
+			lseek(fp.first, fp.second, SEEK_SET);
+	}
+	size_t count() const { return _saved.size(); }
+};
+
+// ---------------------------------------------------------------------------------------------
 /// application router of the harness: three application types are "handled" (return true)
 class HRouter : public UTEST::utest_Router
 {
@@ -460,6 +505,8 @@ protected:
 			os << ";CTRL -";
 		if (per)
 		{
+			// the read-back below must not disturb the persister: file positions are put back afterwards
+			FdPosGuard guard(_p.persist == "file" ? _dir : std::string());
 			// Persister::put is always keyed by _next_send_seq: the keys used during this operation lie between
 			// the values next_send had before and after it (it moves by increments, or by one jump when numbers
 			// are recovered / re-based).  Persister offers no key enumeration and get_last_seqnum can be 2^31,
